@@ -596,3 +596,48 @@ def use_after_release_check(ch: Any, rule: str, cls_name: str = 'HttpProxyPlugin
             n += 1
             ch.check(bad is None, rule, fn, 'no use of %s after release' % field, '%s is not dereferenced after a releasing call on any path' % field, bad[0] if bad else '', witness=bad[1] if bad else None)
     return n
+
+
+def tls_retry_check(ch: Any, rule: str) -> int:
+    """A TLS record that has not arrived completely surfaces as ssl.SSLWantReadError from recv() (SSLWantWriteError from send()):
+    not an error but "try again when the socket is ready".  Every try-block around a receive in the connection handlers has,
+    as the FIRST handler able to catch it, one that names only the SSLWant* types and returns False; a broader handler (OSError /
+    socket.error, of which SSLWantReadError is a subclass) decides on errno, and SSLWantReadError.errno is the SSL error code,
+    not EAGAIN."""
+    import ssl as _ssl
+    prog = ch.prog
+    n = 0
+    for fn in prog.all_functions('proxy'):
+        if fn.cls is None or fn.module.name not in ('proxy.http.handler', 'proxy.http.proxy.server', 'proxy.core.base.tcp_upstream'):
+            continue
+        exc = ExcTypes(prog, fn.module)
+        for t in walk_no_nested(fn.node):
+            if not isinstance(t, ast.Try):
+                continue
+            body_calls = [c for s_ in t.body for c in walk_no_nested(s_) if isinstance(c, ast.Call) and isinstance(c.func, ast.Attribute)]
+            reads = [c for c in body_calls if c.func.attr == 'recv' or (c.func.attr == 'handle_readables' and norm(c.func.value) == 'super()')]
+            if not reads:
+                continue
+            n += 1
+            first = None
+            for h in t.handlers:
+                if exc.handler_catches(h, _ssl.SSLWantReadError) is not False:
+                    first = h
+                    break
+            problem = None
+            if first is None:
+                problem = 'no handler catches ssl.SSLWantReadError around %s' % norm(reads[0])[:50]
+            else:
+                types = exc.handler_types(first)
+                only_want = bool(types) and all(isinstance(x, type) and issubclass(x, (_ssl.SSLWantReadError, _ssl.SSLWantWriteError)) for x in types)
+                if not only_want:
+                    problem = ('the first handler that catches ssl.SSLWantReadError is `except %s`, which also catches real errors and tells them apart by errno '
+                               '(SSLWantReadError.errno is 2, not EAGAIN)' % (norm(first.type) if first.type is not None else ''))
+                else:
+                    last = first.body[-1] if first.body else None
+                    if not (isinstance(last, ast.Return) and last.value is not None and norm(last.value) == 'False'):
+                        problem = 'the SSLWantReadError handler does not end in `return False`'
+            ch.check(problem is None, rule, fn, 'retry on SSLWantReadError around %s' % norm(reads[0])[:40], 'incomplete TLS record => return False (retry when readable again)',
+                     '%s: a TLS record that arrives in two TCP segments makes recv() raise SSLWantReadError, and the connection is torn down instead of being read again when the rest arrives'
+                     % (problem or ''), line=t.lineno)
+    return n
